@@ -184,6 +184,9 @@ def run(ctx):
     else:
         ctx.check("C10.R6", "writer and validator name union branches by the same function", lw["text"] == lv["text"], vu.where(lv["loop"]), f"_validate_union label: {lv['text']!r} vs write_union label: {lw['text']!r}", "everything validate accepts the writers must encode and vice versa: the hint vocabularies differ")
 
+    # ---- shared ----
+    ctx.borrow("C09", {"C09.R2": "C10.R7"}, "validate must reject a (name, value) hint naming no branch exactly as the writer does")
+
 
 def expected_writer_cell(s, sa_, d, n_):
     """True = rejected, False = accepted, None = left open by the property"""
